@@ -3,576 +3,114 @@ package main
 import (
 	"go/token"
 	"go/types"
-	"strings"
 
 	"golang.org/x/tools/go/ssa"
 )
 
 // ---------------------------------------------------------------- multi
 
-// c16Removal is one update of MultiReaderCloser.readers.
+// c16Removal is one update of the readers list.
 type c16Removal struct {
-	Store *ssa.Store
-	Kind  string    // "head" (readers[1:]), "all" (nil / [:0]), "prefix" (readers[v:]), "elem" (readers[v] = nil)
-	Index ssa.Value // for prefix / elem
+	N     c16N
+	Kind  string // "head" (readers[1:]), "all" (nil / [:0]), "prefix" (readers[v:]), "elem" (readers[v] = nil)
+	Index c16V   // for prefix / elem
 }
 
-func c16Multi(c *Ctx) {
-	r, p := c.R, c.P
-	named := p.Named("streams", "MultiReaderCloser")
-	fReaders := c16Field(named, "readers")
-	read := p.Func("streams", "MultiReaderCloser.Read")
-	closeFn := p.Func("streams", "MultiReaderCloser.Close")
-	writeTo := p.FuncOpt("streams", "MultiReaderCloser.WriteTo")
+// c16MultiG bundles an inlined entry point of MultiReaderCloser with the
+// role predicates.
+type c16MultiG struct {
+	*c16G
+	fReaders FieldID
+}
 
-	// methods (and their closures) of the type
-	var methods []*ssa.Function
-	for _, fn := range p.FuncsOfPkg("streams") {
-		top := fn
-		for top.Parent() != nil {
-			top = top.Parent()
-		}
-		if recv := top.Signature.Recv(); recv != nil && typeBaseName(recv.Type()) == "MultiReaderCloser" {
-			methods = append(methods, fn)
+func (m *c16MultiG) isReadersLoad(v c16V) bool { return m.IsFieldLoad(v, m.fReaders) }
+
+// elemIndex: v is element i of the readers slice: *(&S[i]) with S a load of readers.
+func (m *c16MultiG) elemIndex(v c16V) (c16V, bool) {
+	v = m.Val(v)
+	if u, ok := v.V.(*ssa.UnOp); ok && u.Op == token.MUL {
+		if ia, ok := u.X.(*ssa.IndexAddr); ok && m.isReadersLoad(c16V{ia.X, v.Ctx}) {
+			return m.Res(c16V{ia.Index, v.Ctx}), true
 		}
 	}
-	// functions on the WriteTo path (static calls inside the method set)
-	onWritePath := map[*ssa.Function]bool{}
-	if writeTo != nil {
-		var mark func(fn *ssa.Function)
-		mark = func(fn *ssa.Function) {
-			if onWritePath[fn] {
+	return c16V{}, false
+}
+
+func (m *c16MultiG) isHead(v c16V) bool {
+	idx, ok := m.elemIndex(v)
+	if !ok {
+		return false
+	}
+	k, ok := c16IntConst(idx.V)
+	return ok && k == 0
+}
+
+// closeOf: occurrence n closes (through an assertion to a Closer interface) a
+// value satisfying want.
+func (m *c16MultiG) closeOf(n c16N, want func(c16V) bool) bool {
+	return m.MethodCall(n, "Close", func(v c16V) bool {
+		x, ok := m.CloserAssert(v)
+		return ok && want(x)
+	})
+}
+
+func (m *c16MultiG) removals() (out []c16Removal, unknown []c16N) {
+	m.All(func(n c16N, b *c16B) {
+		if st := c16FieldStore(n.In, m.fReaders); st != nil {
+			v := m.Res(c16V{st.Val, n.Ctx})
+			if isNilConst(v.V) {
+				out = append(out, c16Removal{n, "all", c16V{}})
 				return
 			}
-			onWritePath[fn] = true
-			allInstrs(fn, func(in ssa.Instruction) {
-				if ci, ok := in.(ssa.CallInstruction); ok {
-					if cal := staticCallee(ci); cal != nil {
-						for _, m := range methods {
-							if m == cal {
-								mark(cal)
-							}
-						}
-					}
+			if sl, ok := v.V.(*ssa.Slice); ok && m.isReadersLoad(c16V{sl.X, v.Ctx}) && sl.Max == nil {
+				lowK, lowConst := int64(0), sl.Low == nil
+				if sl.Low != nil {
+					lowK, lowConst = m.IntConst(c16V{sl.Low, v.Ctx})
 				}
-			})
-		}
-		mark(writeTo)
-	}
-
-	isReadersLoad := func(v ssa.Value) bool { return c16IsFieldLoad(v, fReaders) }
-	// element i of the readers slice: *(&S[i]) with S a load of readers
-	elemIndex := func(v ssa.Value) (ssa.Value, bool) {
-		v = c16Unconv(v)
-		if u, ok := v.(*ssa.UnOp); ok && u.Op == token.MUL {
-			if ia, ok := u.X.(*ssa.IndexAddr); ok && isReadersLoad(ia.X) {
-				return ia.Index, true
-			}
-		}
-		return nil, false
-	}
-	isHead := func(v ssa.Value) bool {
-		idx, ok := elemIndex(v)
-		if !ok {
-			return false
-		}
-		k, ok := c16IntConst(idx)
-		return ok && k == 0
-	}
-
-	removals := func(fn *ssa.Function) (out []c16Removal, unknown []ssa.Instruction) {
-		allInstrs(fn, func(in ssa.Instruction) {
-			if st := c16FieldStore(in, fReaders); st != nil {
-				v := c16Unconv(st.Val)
-				if isNilConst(v) {
-					out = append(out, c16Removal{st, "all", nil})
-					return
-				}
-				if sl, ok := v.(*ssa.Slice); ok && isReadersLoad(sl.X) && sl.Max == nil {
-					lowK, lowConst := int64(0), sl.Low == nil
-					if sl.Low != nil {
-						lowK, lowConst = c16IntConst(sl.Low)
-					}
-					if sl.High != nil {
-						if hk, ok := c16IntConst(sl.High); ok && hk == 0 {
-							out = append(out, c16Removal{st, "all", nil})
-							return
-						}
-						unknown = append(unknown, in)
+				if sl.High != nil {
+					if hk, ok := m.IntConst(c16V{sl.High, v.Ctx}); ok && hk == 0 {
+						out = append(out, c16Removal{n, "all", c16V{}})
 						return
 					}
-					switch {
-					case lowConst && lowK == 0:
-						return // readers[0:] keeps everything
-					case lowConst && lowK == 1:
-						out = append(out, c16Removal{st, "head", nil})
-					case lowConst:
-						unknown = append(unknown, in)
-					default:
-						out = append(out, c16Removal{st, "prefix", sl.Low})
-					}
+					unknown = append(unknown, n)
 					return
 				}
-				unknown = append(unknown, in)
+				switch {
+				case lowConst && lowK == 0:
+				case lowConst && lowK == 1:
+					out = append(out, c16Removal{n, "head", c16V{}})
+				case lowConst:
+					unknown = append(unknown, n)
+				default:
+					out = append(out, c16Removal{n, "prefix", m.Res(c16V{sl.Low, v.Ctx})})
+				}
 				return
 			}
-			if st, ok := in.(*ssa.Store); ok {
-				if ia, ok := st.Addr.(*ssa.IndexAddr); ok && isReadersLoad(ia.X) {
-					if isNilConst(st.Val) {
-						out = append(out, c16Removal{st, "elem", ia.Index})
-					} else {
-						unknown = append(unknown, in)
-					}
+			unknown = append(unknown, n)
+			return
+		}
+		if st, ok := n.In.(*ssa.Store); ok {
+			if ia, ok := st.Addr.(*ssa.IndexAddr); ok && m.isReadersLoad(c16V{ia.X, n.Ctx}) {
+				if m.IsNil(c16V{st.Val, n.Ctx}) {
+					out = append(out, c16Removal{n, "elem", m.Res(c16V{ia.Index, n.Ctx})})
+				} else {
+					unknown = append(unknown, n)
 				}
 			}
-		})
-		return
-	}
-
-	// --- Read: head drops
-	rname := FuncName(p, read)
-	var headReads []*ssa.Call
-	allInstrs(read, func(in ssa.Instruction) {
-		if ci, ok := c16InvokeOn(in, "Read", isHead); ok {
-			if call, ok := ci.(*ssa.Call); ok {
-				headReads = append(headReads, call)
+		}
+		if call, ok := n.In.(*ssa.Call); ok {
+			if bn := builtinName(call); bn == "clear" || bn == "copy" || bn == "append" {
+				for _, a := range call.Call.Args {
+					if m.isReadersLoad(c16V{a, n.Ctx}) && (bn != "append" || a == call.Call.Args[0]) && bn != "append" {
+						unknown = append(unknown, n)
+					}
+				}
 			}
 		}
 	})
-	if len(headReads) == 0 {
-		r.Violation("C16.V1-multi", rname+" returned count", p.Pos(read.Pos()), "MultiReaderCloser.Read no longer reads from readers[0]")
-		return
-	}
-	var cnts, errs []ssa.Value
-	for _, hr := range headReads {
-		if v := callResult(hr, 0); v != nil {
-			cnts = append(cnts, v)
-		}
-		if v := callResult(hr, 1); v != nil {
-			errs = append(errs, v)
-		}
-	}
-	isCloseOfHead := func(in ssa.Instruction, want func(ssa.Value) bool) bool {
-		call, ok := in.(*ssa.Call)
-		if !ok {
-			return false
-		}
-		_, ok = c16InvokeOn(call, "Close", func(v ssa.Value) bool {
-			ta := c16CloserAssert(v)
-			return ta != nil && want(ta.X)
-		})
-		return ok
-	}
-	var headVals []ssa.Value
-	for _, hr := range headReads {
-		headVals = append(headVals, c16Unconv(hr.Call.Value))
-	}
-	isHeadVal := func(v ssa.Value) bool {
-		v = c16Unconv(v)
-		for _, h := range headVals {
-			if h == v {
-				return true
-			}
-		}
-		return false
-	}
-	// Per read of the head (reset at every readers[0].Read): which of
-	// {closed-if-Closer or exception, Close really invoked, dropped from the
-	// list, read returned non-nil error} hold. Checked at the commit points:
-	// every return and every next head read.
-	const (
-		fDone = 1 << iota
-		fClosed
-		fDropped
-		fNonNil
-		fData // the head's Read may have delivered bytes (count not yet known <= 0)
-	)
-	cntOf := func(v ssa.Value) string {
-		v = c16Unconv(v)
-		for _, cv := range cnts {
-			if cv == v {
-				return "cnt"
-			}
-		}
-		return ""
-	}
-	anySt := func(st uint64, pred func(x int) bool) bool {
-		for i := 0; i < 64; i++ {
-			if st&(1<<uint(i)) != 0 && pred(i) {
-				return true
-			}
-		}
-		return false
-	}
-	nCloseInRead := 0
-	const fDataState = fData // state index holding only fData
-	for _, fn := range methods {
-		rem, unk := removals(fn)
-		fname := FuncName(p, fn)
-		for _, u := range unk {
-			r.Undecide("unrecognised update of MultiReaderCloser.readers in %s at %s", fname, p.Pos(instrPos(u)))
-		}
-		heads := map[ssa.Instruction]bool{}
-		for _, rm := range rem {
-			if rm.Kind == "head" {
-				heads[rm.Store] = true
-			} else if fn == read {
-				r.Undecide("MultiReaderCloser.Read updates readers in an unrecognised way (%s) at %s", rm.Kind, p.Pos(instrPos(rm.Store)))
-			}
-		}
-		if len(heads) == 0 && fn != read {
-			continue
-		}
-		if fn != read {
-			r.Undecide("%s drops readers[0]; the head-drop rule is written for Read", fname)
-			continue
-		}
-		isHeadRead := func(in ssa.Instruction) bool {
-			for _, hr := range headReads {
-				if ssa.Instruction(hr) == in {
-					return true
-				}
-			}
-			return false
-		}
-		ff := &FlagFlow{Fn: fn, Must: false, Entry: 1 << 0,
-			Transfer: func(in ssa.Instruction, st uint64) uint64 {
-				if isHeadRead(in) {
-					return 1 << fDataState
-				}
-				if heads[in] {
-					return mapStates(st, func(x int) int { return x | fDropped })
-				}
-				if isCloseOfHead(in, isHeadVal) {
-					return mapStates(st, func(x int) int { return x | fDone | fClosed })
-				}
-				return st
-			},
-			EdgeTransfer: func(from, to *ssa.BasicBlock, st uint64) uint64 {
-				add := 0
-				if ta, truth, ok := c16AssertOkEdge(from, to); ok && !truth && isHeadVal(ta.X) && c16HasClose(ta.AssertedType) {
-					add |= fDone
-				}
-				if dc, ok := c16EdgeCond(from, to); ok {
-					if call, truth, ok := boolCallCond(dc.If.Cond, dc.Branch); ok && truth && callIs(call, "errors", "", "Is") && len(call.Call.Args) == 2 &&
-						c16IsGlobalLoad(call.Call.Args[1], "net/http", "ErrBodyReadAfterClose") {
-						add |= fDone | fNonNil
-					}
-					if c16FactsAbout([]DomCond{dc}, errs).NonNil {
-						add |= fNonNil
-					}
-				}
-				clr := 0
-				if dc, ok := c16EdgeCond(from, to); ok {
-					for _, rel := range c16Rels([]DomCond{dc}, cntOf) {
-						if rel.X == "cnt" && rel.Y == "" && rel.impliesLE(0) {
-							clr = fData
-						}
-					}
-				}
-				if add == 0 && clr == 0 {
-					return st
-				}
-				return mapStates(st, func(x int) int { return (x | add) &^ clr })
-			}}
-		ff.Run()
-		allInstrs(fn, func(in ssa.Instruction) {
-			if isCloseOfHead(in, isHeadVal) {
-				nCloseInRead++
-			}
-		})
-		dropBad, nonNilBad, onceBad, dataBad := token.NoPos, token.NoPos, token.NoPos, token.NoPos
-		commit := func(st uint64, pos token.Pos) {
-			if anySt(st, func(x int) bool { return x&fDropped != 0 && x&fDone == 0 }) {
-				dropBad = pos
-			}
-			if anySt(st, func(x int) bool { return x&fClosed != 0 && x&fDropped == 0 }) {
-				onceBad = pos
-			}
-		}
-		ff.AtReturns(func(ret *ssa.Return, st uint64) { commit(st, ret.Pos()) })
-		for _, hr := range headReads {
-			if st, ok := ff.Before(hr); ok {
-				commit(st, hr.Pos())
-				if anySt(st, func(x int) bool { return x&fData != 0 }) {
-					dataBad = hr.Pos()
-				}
-			}
-		}
-		r.Check(!dataBad.IsValid(), "C16.V1-multi", fname+" reads on only after a zero-length read", p.Pos(c16PosOr(dataBad, fn.Pos())),
-			"Read calls the next readers[0].Read only on paths where the previous count is known <= 0", "Read can loop to the next readers[0].Read although the previous one delivered bytes into p (e.g. data together with io.EOF): those bytes are overwritten and lost from the concatenation")
-		for s := range heads {
-			if st, ok := ff.Before(s); ok && anySt(st, func(x int) bool { return x&fNonNil == 0 }) {
-				nonNilBad = instrPos(s)
-			}
-		}
-		if len(heads) == 0 {
-			r.Violation("C16.V3-drop", fname+" drops readers[0] only after its Read failed/EOF", p.Pos(fn.Pos()), "Read never advances to the next reader (no readers = readers[1:]): only the first source is ever yielded")
-			continue
-		}
-		r.Check(!dropBad.IsValid(), "C16.V3-drop", fname+" drops readers[0] only after Close-if-Closer", p.Pos(c16PosOr(dropBad, fn.Pos())),
-			"whenever the head was dropped, before Read returns or reads again it was closed if it is an io.Closer (or the read failed with http.ErrBodyReadAfterClose)",
-			"readers[0] is dropped from the list and Read returns / reads on with that reader not closed (and not the ErrBodyReadAfterClose exception): a closable source is never closed — neither here nor by Close(), which only sees the remaining readers")
-		r.Check(!nonNilBad.IsValid(), "C16.V3-drop", fname+" drops readers[0] only after its Read failed/EOF", p.Pos(c16PosOr(nonNilBad, fn.Pos())),
-			"the head is dropped only where its Read returned a non-nil error",
-			"readers[0] is dropped on a path where its Read may have returned err == nil: the rest of that source's bytes are lost from the concatenation")
-		if nCloseInRead == 0 {
-			r.Violation("C16.V3-once", fname+" closed head is removed", p.Pos(fn.Pos()), "Read never closes a reader that reached EOF: finished closable sources are dropped open")
-		} else {
-			r.Check(!onceBad.IsValid(), "C16.V3-once", fname+" closed head is removed", p.Pos(c16PosOr(onceBad, fn.Pos())),
-				"whenever Read closed the head it also removed it from readers before returning or reading again", "Read closes readers[0] and can return / read again with it still at the head: it is read after Close and closed again later")
-		}
-	}
-
-	// V1-multi + V6-eof-last
-	{
-		isOneOf := func(v ssa.Value, set []ssa.Value) bool {
-			v = c16Unconv(v)
-			for _, s := range set {
-				if s == v {
-					return true
-				}
-			}
-			return false
-		}
-		why, wpos := "", token.NoPos
-		for _, rl := range c16ReturnLeaves(read, 0) {
-			for _, lf := range rl.Leaves {
-				if isOneOf(lf.Val, cnts) {
-					continue
-				}
-				if k, ok := c16IntConst(lf.Val); ok && k == 0 {
-					dom := false
-					for _, hr := range headReads {
-						if hr.Block().Dominates(rl.Ret.Block()) {
-							dom = true
-						}
-					}
-					if !dom {
-						continue
-					}
-					// zero is fine if the count is known <= 0
-					z := false
-					for _, rel := range c16Rels(lf.Conds, func(v ssa.Value) string {
-						if isOneOf(v, cnts) {
-							return "cnt"
-						}
-						return ""
-					}) {
-						if rel.X == "cnt" && rel.Y == "" && rel.impliesLE(0) {
-							z = true
-						}
-					}
-					if z {
-						continue
-					}
-				}
-				why = "Read can return a byte count that is not the count of the head's Read (bytes already placed in p — e.g. data delivered together with an error/EOF — are lost)"
-				wpos = rl.Ret.Pos()
-			}
-		}
-		r.Check(why == "", "C16.V1-multi", rname+" returned count", p.Pos(c16PosOr(wpos, read.Pos())), "every return after a head read reports that read's count", why)
-
-		lenBase := func(v ssa.Value) string {
-			if call, ok := v.(*ssa.Call); ok && builtinName(call) == "len" && len(call.Call.Args) == 1 && isReadersLoad(call.Call.Args[0]) {
-				return "lenR"
-			}
-			return ""
-		}
-		why, wpos = "", token.NoPos
-		nEOF := 0
-		for _, rl := range c16ReturnLeaves(read, 1) {
-			for _, lf := range rl.Leaves {
-				mayEOF := false
-				switch {
-				case c16IsGlobalLoad(lf.Val, "io", "EOF"):
-					mayEOF = true
-					if f := c16FactsAbout(lf.Conds, lf.Via); f.NotEOF || f.Nil {
-						mayEOF = false
-					}
-				case isOneOf(lf.Val, errs):
-					f := c16FactsAbout(lf.Conds, append(append([]ssa.Value(nil), lf.Via...), lf.Val))
-					mayEOF = !f.NotEOF && !f.Nil
-				}
-				if !mayEOF {
-					continue
-				}
-				nEOF++
-				empty := false
-				for _, rel := range c16Rels(lf.Conds, lenBase) {
-					if rel.X == "lenR" && rel.Y == "" && rel.impliesLE(0) {
-						empty = true
-					}
-				}
-				if !empty {
-					why = "Read can return io.EOF on a path where len(readers) == 0 is not established: a consumer stops at the end of one source and the remaining sources are cut off the concatenation"
-					wpos = rl.Ret.Pos()
-				}
-			}
-		}
-		if nEOF == 0 {
-			r.Violation("C16.V6-eof-last", rname+" io.EOF only when no reader remains", p.Pos(read.Pos()), "Read never returns io.EOF: the stream never ends")
-		} else {
-			r.Check(why == "", "C16.V6-eof-last", rname+" io.EOF only when no reader remains", p.Pos(c16PosOr(wpos, read.Pos())), "every return that may carry io.EOF is under len(readers) == 0", why)
-		}
-	}
-
-	// --- loops over readers (WriteTo path, Close)
-	closeHasLoop := false
-	for _, fn := range methods {
-		if fn == read {
-			continue
-		}
-		rem, _ := removals(fn)
-		loops := c16ReaderLoops(fn, isReadersLoad)
-		fname := FuncName(p, fn)
-		if len(loops) == 0 {
-			for _, rm := range rem {
-				if rm.Kind != "head" {
-					r.Violation("C16.V3-drop", fname+" drops readers after closing them", p.Pos(instrPos(rm.Store)), "readers are dropped ("+rm.Kind+") in a function that does not loop over them closing each io.Closer: closable sources are never closed")
-				}
-			}
-			continue
-		}
-		if len(loops) > 1 {
-			r.Undecide("%s has %d loops over readers; rule written for one", fname, len(loops))
-			continue
-		}
-		lp := loops[0]
-		isElem := func(v ssa.Value) bool {
-			idx, ok := elemIndex(v)
-			return ok && idx == lp.Idx
-		}
-		needCopy := onWritePath[fn]
-		const (
-			sHandled = 1 << iota
-			sDropped
-			sCopied
-			sClosed
-		)
-		ff := &FlagFlow{Fn: fn, Must: false, Entry: 1 << 0,
-			Transfer: func(in ssa.Instruction, st uint64) uint64 {
-				if in == lp.Header.Instrs[0] {
-					st = 1 << 0
-				}
-				if isCloseOfHead(in, isElem) {
-					return mapStates(st, func(x int) int { return x | sHandled | sClosed })
-				}
-				if call, ok := in.(*ssa.Call); ok && (callIs(call, "io", "", "CopyBuffer") || callIs(call, "io", "", "Copy") || callIs(call, "io", "", "CopyN")) && !callIs(call, "io", "", "CopyN") {
-					if len(call.Call.Args) >= 2 && isElem(call.Call.Args[1]) {
-						return mapStates(st, func(x int) int { return x | sCopied })
-					}
-				}
-				if s, ok := in.(*ssa.Store); ok {
-					if ia, ok := s.Addr.(*ssa.IndexAddr); ok && isReadersLoad(ia.X) && ia.Index == lp.Idx && isNilConst(s.Val) {
-						return mapStates(st, func(x int) int { return x | sDropped })
-					}
-				}
-				return st
-			},
-			EdgeTransfer: func(from, to *ssa.BasicBlock, st uint64) uint64 {
-				if ta, truth, ok := c16AssertOkEdge(from, to); ok && !truth && isElem(ta.X) && c16HasClose(ta.AssertedType) {
-					return mapStates(st, func(x int) int { return x | sHandled })
-				}
-				return st
-			}}
-		ff.Run()
-		anyState := func(st uint64, pred func(x int) bool) bool {
-			for i := 0; i < 64; i++ {
-				if st&(1<<uint(i)) != 0 && pred(i) {
-					return true
-				}
-			}
-			return false
-		}
-		why := lp.Why
-		pos := instrPos(lp.If)
-		var early []*ssa.BasicBlock
-		for b := range lp.Blocks {
-			st, ok := ff.Out(b)
-			if !ok {
-				continue
-			}
-			for _, s := range b.Succs {
-				es := ff.EdgeTransfer(b, s, st)
-				switch {
-				case s == lp.Header:
-					if anyState(es, func(x int) bool { return x&sHandled == 0 }) {
-						why = "an iteration can move on to the next reader with the current one neither closed (if it is an io.Closer) nor kept for Close(): once the list is dropped / the element nil-ed that source is never closed (e.g. io.Copy(dst, mr) followed by mr.Close() closes nothing)"
-						pos = instrPos(b.Instrs[len(b.Instrs)-1])
-					} else if needCopy && anyState(es, func(x int) bool { return x&sCopied == 0 }) {
-						why = "an iteration of the WriteTo loop can finish without copying the current reader to w: its bytes are missing from the concatenation"
-						pos = instrPos(b.Instrs[len(b.Instrs)-1])
-					}
-				case !lp.Blocks[s] && b != lp.Header:
-					early = append(early, s)
-					if anyState(es, func(x int) bool { return x&sDropped != 0 && x&sHandled == 0 }) {
-						why = "the loop is left early after nil-ing the current reader without closing it"
-						pos = instrPos(b.Instrs[len(b.Instrs)-1])
-					}
-				}
-			}
-		}
-		// stores
-		for _, rm := range rem {
-			switch rm.Kind {
-			case "prefix":
-				st, _ := ff.Before(rm.Store)
-				b, off, ok := c16Lin(rm.Index, func(v ssa.Value) string {
-					if v == lp.Idx {
-						return "i"
-					}
-					return ""
-				})
-				handled := !anyState(st, func(x int) bool { return x&sHandled == 0 })
-				if !lp.Blocks[rm.Store.Block()] && !c16DominatedByAny(rm.Store.Block(), early) {
-					why = "readers is re-sliced from a variable index outside the loop over it"
-					pos = instrPos(rm.Store)
-				} else if ok && b == "i" && off == 0 && anyState(st, func(x int) bool { return x&sClosed != 0 && x&sDropped == 0 }) {
-					why = "the current reader was closed and is then kept at the head of readers (re-slice from its own index): a retry reads a closed source and Close() closes it a second time"
-					pos = instrPos(rm.Store)
-				} else if !(ok && b == "i" && (off == 0 || (off == 1 && handled))) {
-					why = "readers is re-sliced to start after the current reader although that one was not closed (it is dropped unclosed), or from an unrelated index"
-					pos = instrPos(rm.Store)
-				}
-			case "all":
-				okDom := edgeDominates(lp.Header, lp.Exit, rm.Store.Block())
-				for _, eb := range early {
-					if reachableFrom(eb, nil)[rm.Store.Block()] {
-						okDom = false
-					}
-				}
-				if !okDom {
-					why = "all readers are dropped on a path that did not run the closing loop to its end: the remaining closable sources are never closed"
-					pos = instrPos(rm.Store)
-				}
-			}
-		}
-		if fn == closeFn {
-			closeHasLoop = true
-			if len(early) > 0 && why == "" {
-				why = "Close can leave its loop before the last reader: the remaining sources stay open"
-			}
-			r.Check(why == "", "C16.V3-loop", fname+" closes remaining readers", p.Pos(pos), "Close visits readers 0..len-1 and closes every io.Closer", why)
-		} else {
-			r.Check(why == "", "C16.V3-loop", fname+" loop over readers", p.Pos(pos), "each iteration copies the reader and leaves it closed-if-Closer or still listed", why)
-		}
-	}
-	if !closeHasLoop {
-		r.Violation("C16.V3-loop", FuncName(p, closeFn)+" closes remaining readers", p.Pos(closeFn.Pos()), "MultiReaderCloser.Close no longer loops over the remaining readers closing each io.Closer")
-	}
+	return
 }
 
-func c16DominatedByAny(b *ssa.BasicBlock, ds []*ssa.BasicBlock) bool {
-	for _, d := range ds {
-		if d.Dominates(b) {
-			return true
-		}
-	}
-	return false
-}
-
-// c16HasClose: t is an interface type with a Close() error method.
 func c16HasClose(t types.Type) bool {
 	it, ok := t.Underlying().(*types.Interface)
 	if !ok {
@@ -586,42 +124,441 @@ func c16HasClose(t types.Type) bool {
 	return false
 }
 
-// c16Loop is a counting loop `for idx over 0..len(readers)-1`.
-type c16Loop struct {
-	Header *ssa.BasicBlock
-	If     *ssa.If
-	Idx    ssa.Value // the value compared with len and used to index the element
-	Exit   *ssa.BasicBlock
-	Blocks map[*ssa.BasicBlock]bool
-	Why    string // non-empty: the loop does not cover 0..len-1
+func c16Multi(c *Ctx) {
+	r, p := c.R, c.P
+	named := p.Named("streams", "MultiReaderCloser")
+	fReaders := c16FieldByType(named, "list of source readers", "readers", func(t types.Type) bool {
+		sl, ok := t.Underlying().(*types.Slice)
+		return ok && c16IsIface(sl.Elem()) && c16HasMethod(sl.Elem(), "Read")
+	})
+	read := c16Method(p, named, "Read")
+	closeFn := c16Method(p, named, "Close")
+	writeTo := c16Method(p, named, "WriteTo")
+	if read == nil || closeFn == nil {
+		undecided("MultiReaderCloser has no Read/Close method body")
+	}
+	mk := func(fn *ssa.Function) *c16MultiG {
+		g := c16Build(p, fn)
+		g.Esc = g.Escapes(fReaders, true, "io.Copy", "io.CopyBuffer")
+		if g.Esc == "" {
+			g.Esc = g.Escapes(fReaders, false)
+		}
+		return &c16MultiG{g, fReaders}
+	}
+
+	c16MultiRead(c, mk(read))
+	hasClose := false
+	if writeTo != nil {
+		c16MultiLoop(c, mk(writeTo), "streams.MultiReaderCloser.WriteTo", true, false)
+	} else {
+		r.Note("MultiReaderCloser has no WriteTo: io.Copy goes through Read (covered by the Read rules)")
+		r.Trivial("C16.V3-loop", "streams.MultiReaderCloser.WriteTo loop over readers", "-", "no WriteTo fast path")
+	}
+	hasClose = c16MultiLoop(c, mk(closeFn), "streams.MultiReaderCloser.Close", false, true)
+	_ = hasClose
 }
 
-func c16ReaderLoops(fn *ssa.Function, isReadersLoad func(ssa.Value) bool) []*c16Loop {
-	var out []*c16Loop
-	allInstrs(fn, func(in ssa.Instruction) {
-		ifi, ok := in.(*ssa.If)
-		if !ok || !c16OnCycle(ifi.Block()) {
-			return
+// c16MultiRead: the rules for Read (head-consuming form).
+func c16MultiRead(c *Ctx, m *c16MultiG) {
+	r, p := c.R, c.P
+	const fname = "streams.MultiReaderCloser.Read"
+	read := m.Root
+	g := m.c16G
+
+	var headReads []c16N
+	g.All(func(n c16N, b *c16B) {
+		if _, isCall := n.In.(*ssa.Call); isCall && g.MethodCall(n, "Read", m.isHead) {
+			headReads = append(headReads, n)
 		}
-		cmp, ok := decodeCond(ifi.Cond, true)
+	})
+	if len(headReads) == 0 {
+		c16Absent(r, g, g.Escapes(m.fReaders, true), "C16.V1-multi", fname+" returned count", p.Pos(read.Pos()), "Read no longer reads from readers[0]")
+		return
+	}
+	var cnts, errs []c16V
+	for _, hr := range headReads {
+		if v := g.Result(hr, 0); v.V != nil {
+			cnts = append(cnts, g.Res(v))
+		}
+		if v := g.Result(hr, 1); v.V != nil {
+			errs = append(errs, g.Res(v))
+		}
+	}
+	isOneOf := func(v c16V, set []c16V) bool {
+		v = g.Res(v)
+		for _, s := range set {
+			if s == v {
+				return true
+			}
+		}
+		return false
+	}
+	cntOf := func(v c16V) string {
+		if isOneOf(v, cnts) {
+			return "cnt"
+		}
+		return ""
+	}
+	isHeadRead := func(n c16N) bool {
+		for _, hr := range headReads {
+			if hr == n {
+				return true
+			}
+		}
+		return false
+	}
+
+	rem, unk := m.removals()
+	for _, u := range unk {
+		g.Unk(r, "unrecognised update of the readers list in %s at %s", fname, p.Pos(g.Pos(u)))
+	}
+	heads := map[c16N]bool{}
+	for _, rm := range rem {
+		if rm.Kind == "head" {
+			heads[rm.N] = true
+		} else {
+			g.Unk(r, "%s updates the readers list in an unrecognised way (%s) at %s", fname, rm.Kind, p.Pos(g.Pos(rm.N)))
+		}
+	}
+	hf := c16HeadFlow(m, heads, func(n c16N) bool { return isHeadRead(n) }, errs, cntOf)
+
+	if len(heads) == 0 {
+		c16Absent(r, g, "", "C16.V3-drop", fname+" drops readers[0] only after its Read failed/EOF", p.Pos(read.Pos()), "Read never advances to the next reader (no readers = readers[1:]): only the first source is ever yielded")
+		return
+	}
+	c16Check(r, g, !hf.dropBad.IsValid(), "C16.V3-drop", fname+" drops readers[0] only after Close-if-Closer", p.Pos(c16PosOr(hf.dropBad, read.Pos())),
+		"whenever the head was dropped, before Read returns or drops again it was closed if it is an io.Closer (or the read failed with http.ErrBodyReadAfterClose)",
+		"readers[0] is dropped from the list and Read returns / goes on with that reader not closed (and not the ErrBodyReadAfterClose exception): a closable source is never closed — neither here nor by Close(), which only sees the remaining readers")
+	c16Check(r, g, !hf.reqBad.IsValid(), "C16.V3-drop", fname+" drops readers[0] only after its Read failed/EOF", p.Pos(c16PosOr(hf.reqBad, read.Pos())),
+		"the head is dropped only where its Read returned a non-nil error",
+		"readers[0] is dropped on a path where its Read may have returned err == nil: the rest of that source's bytes are lost from the concatenation")
+	if hf.nClose == 0 {
+		c16Absent(r, g, g.Escapes(m.fReaders, true), "C16.V3-once", fname+" closed head is removed", p.Pos(read.Pos()), "Read never closes a reader that reached EOF: finished closable sources are dropped open")
+	} else {
+		c16Check(r, g, !hf.onceBad.IsValid(), "C16.V3-once", fname+" closed head is removed", p.Pos(c16PosOr(hf.onceBad, read.Pos())),
+			"whenever Read closed the head it also removed it from readers before returning or using it again", "Read closes readers[0] and can return / read again with it still at the head: it is read after Close and closed again later")
+	}
+	c16Check(r, g, !hf.dataBad.IsValid(), "C16.V1-multi", fname+" reads on only after a zero-length read", p.Pos(c16PosOr(hf.dataBad, read.Pos())),
+		"Read calls the next readers[0].Read only on paths where the previous count is known <= 0", "Read can loop to the next readers[0].Read although the previous one delivered bytes into p (e.g. data together with io.EOF): those bytes are overwritten and lost from the concatenation")
+
+	// V1-multi returned count
+	why, wpos := "", token.NoPos
+	for _, rl := range g.ExitLeaves(0) {
+		for _, lf := range rl.Leaves {
+			if isOneOf(lf.Val, cnts) {
+				continue
+			}
+			if k, ok := c16IntConst(lf.Val.V); ok && k == 0 {
+				dom := false
+				for _, hr := range headReads {
+					if g.Dominates(g.where[hr], rl.Exit) {
+						dom = true
+					}
+				}
+				if !dom {
+					continue
+				}
+				z := false
+				for _, rel := range g.Rels(lf.Conds, cntOf) {
+					if rel.X == "cnt" && rel.Y == "" && rel.impliesLE(0) {
+						z = true
+					}
+				}
+				if z {
+					continue
+				}
+			} else if _, isConst := lf.Val.V.(*ssa.Const); !isConst {
+				g.Unk(r, "%s returns a byte count the rule cannot relate to the head's Read at %s", fname, p.Pos(rl.Ret.Pos()))
+				continue
+			}
+			why = "Read can return a byte count that is not the count of the head's Read (bytes already placed in p — e.g. data delivered together with an error/EOF — are lost)"
+			wpos = rl.Ret.Pos()
+		}
+	}
+	c16Check(r, g, why == "", "C16.V1-multi", fname+" returned count", p.Pos(c16PosOr(wpos, read.Pos())), "every return after a head read reports that read's count", why)
+
+	// V6
+	lenBase := func(v c16V) string {
+		if call, ok := v.V.(*ssa.Call); ok && builtinName(call) == "len" && len(call.Call.Args) == 1 && m.isReadersLoad(c16V{call.Call.Args[0], v.Ctx}) {
+			return "lenR"
+		}
+		return ""
+	}
+	why, wpos = "", token.NoPos
+	nEOF, nOther := 0, 0
+	for _, rl := range g.ExitLeaves(1) {
+		for _, lf := range rl.Leaves {
+			mayEOF := false
+			switch {
+			case g.IsGlobalLoad(lf.Val, "io", "EOF"):
+				mayEOF = true
+				if f := g.FactsAbout(lf.Conds, lf.Via); f.NotEOF || f.Nil {
+					mayEOF = false
+				}
+			case isOneOf(lf.Val, errs):
+				f := g.FactsAbout(lf.Conds, append(append([]c16V(nil), lf.Via...), lf.Val))
+				mayEOF = !f.NotEOF && !f.Nil
+			case g.IsNil(lf.Val):
+			default:
+				nOther++
+			}
+			if !mayEOF {
+				continue
+			}
+			nEOF++
+			empty := false
+			for _, rel := range g.Rels(lf.Conds, lenBase) {
+				if rel.X == "lenR" && rel.Y == "" && rel.impliesLE(0) {
+					empty = true
+				}
+			}
+			if !empty {
+				why = "Read can return io.EOF on a path where len(readers) == 0 is not established: a consumer stops at the end of one source and the remaining sources are cut off the concatenation"
+				wpos = rl.Ret.Pos()
+			}
+		}
+	}
+	if nEOF == 0 && nOther > 0 {
+		g.Unk(r, "%s returns error values the rule cannot classify and none that is recognisably io.EOF", fname)
+	} else if nEOF == 0 {
+		c16Viol(r, g, "C16.V6-eof-last", fname+" io.EOF only when no reader remains", p.Pos(read.Pos()), "Read never returns io.EOF: the stream never ends")
+	} else {
+		c16Check(r, g, why == "", "C16.V6-eof-last", fname+" io.EOF only when no reader remains", p.Pos(c16PosOr(wpos, read.Pos())), "every return that may carry io.EOF is under len(readers) == 0", why)
+	}
+}
+
+// c16HeadResult is the outcome of the head-consuming analysis.
+type c16HeadResult struct {
+	dropBad, reqBad, onceBad, dataBad token.Pos
+	nClose, nLoads                    int
+	ff                                *c16Flow
+}
+
+// c16HeadFlow analyses a function that consumes the list from its head
+// (`readers = readers[1:]`). It tracks the reader currently at index 0 (the
+// "head") and the one that just left the list (the "departed"), whichever
+// load of readers[0] a later Close/assertion uses:
+//
+//	hDone    the head was closed if it is a Closer (or hit the ErrBodyReadAfterClose exception)
+//	hClosed  Close was really invoked on the head
+//	hReq     the requirement for dropping the head holds (Read: its Read returned a non-nil error; WriteTo: it was copied)
+//	hData    (Read) the head's last Read may have delivered bytes not yet returned
+//	dPending a departed reader still has to be closed-if-Closer
+//
+// use(n) says whether occurrence n "consumes" the head (its Read / its copy).
+func c16HeadFlow(m *c16MultiG, heads map[c16N]bool, use func(n c16N) bool, errs []c16V, cntOf func(c16V) string) *c16HeadResult {
+	g := m.c16G
+	const (
+		hDone = 1 << iota
+		hClosed
+		hReq
+		hData
+		dPending
+		curShift = 8
+		depShift = 16
+	)
+	// the loads of readers[0]
+	var loads []c16V
+	loadIdx := func(v c16V) int {
+		v = g.Val(v)
+		for i, l := range loads {
+			if l == v {
+				return i
+			}
+		}
+		return -1
+	}
+	g.All(func(n c16N, b *c16B) {
+		if v, ok := n.In.(ssa.Value); ok && m.isHead(c16V{v, n.Ctx}) && loadIdx(c16V{v, n.Ctx}) < 0 {
+			loads = append(loads, g.Res(c16V{v, n.Ctx}))
+		}
+	})
+	res := &c16HeadResult{nLoads: len(loads)}
+	if len(loads) > 8 {
+		undecided("more than 8 loads of readers[0] in %s", g.Root.Name())
+	}
+	isLoad := func(n c16N) int {
+		v, ok := n.In.(ssa.Value)
 		if !ok {
+			return -1
+		}
+		if g.Res(c16V{v, n.Ctx}) != (c16V{v, n.Ctx}) {
+			return -1
+		}
+		return loadIdx(c16V{v, n.Ctx})
+	}
+	// which head load does a Close / assertion operand come from
+	closeTarget := func(n c16N) int {
+		idx := -1
+		g.MethodCall(n, "Close", func(v c16V) bool {
+			if x, ok := g.CloserAssert(v); ok {
+				idx = loadIdx(x)
+			}
+			return idx >= 0
+		})
+		return idx
+	}
+	ff := &c16Flow{G: g, Entry: 0,
+		Transfer: func(n c16N, s uint32) uint32 {
+			if i := isLoad(n); i >= 0 {
+				s |= 1 << (curShift + uint(i))
+				s &^= 1 << (depShift + uint(i))
+			}
+			if use(n) {
+				s |= hData
+				s &^= hReq
+				if cntOf == nil { // copy: the requirement is the use itself
+					s = (s | hReq) &^ hData
+				}
+			}
+			if heads[n] {
+				if s&hDone == 0 {
+					s |= dPending
+				}
+				cur := (s >> curShift) & 0xff
+				s &^= 0xff << curShift
+				s &^= 0xff << depShift
+				s |= cur << depShift
+				s &^= hDone | hClosed | hReq | hData
+				return s
+			}
+			if i := closeTarget(n); i >= 0 {
+				switch {
+				case s&(1<<(curShift+uint(i))) != 0:
+					s |= hDone | hClosed
+				case s&(1<<(depShift+uint(i))) != 0:
+					s &^= dPending
+				}
+			}
+			return s
+		},
+		Edge: func(conds []c16C, s uint32) (uint32, bool) {
+			for _, c := range conds {
+				if x, truth, ok := g.AssertOk(c); ok && !truth {
+					if i := loadIdx(x); i >= 0 {
+						switch {
+						case s&(1<<(curShift+uint(i))) != 0:
+							s |= hDone
+						case s&(1<<(depShift+uint(i))) != 0:
+							s &^= dPending
+						}
+					}
+				}
+				{
+					if cv, truth := g.BoolCond(c); truth {
+						if call, isCall := cv.V.(*ssa.Call); isCall && callIs(call, "errors", "", "Is") && len(call.Call.Args) == 2 &&
+							g.IsGlobalLoad(c16V{call.Call.Args[1], cv.Ctx}, "net/http", "ErrBodyReadAfterClose") {
+							s |= hDone
+							if cntOf != nil {
+								s |= hReq
+							}
+						}
+					}
+					if cntOf != nil {
+						if g.FactsAbout([]c16C{c}, errs).NonNil {
+							s |= hReq
+						}
+						for _, rel := range g.Rels([]c16C{c}, cntOf) {
+							if rel.X == "cnt" && rel.Y == "" && rel.impliesLE(0) {
+								s &^= hData
+							}
+						}
+					}
+				}
+			}
+			return s, true
+		}}
+	ff.Run()
+	res.ff = ff
+	g.All(func(n c16N, b *c16B) {
+		if closeTarget(n) >= 0 {
+			res.nClose++
+		}
+		if !ff.Reached(n) {
 			return
 		}
-		isLen := func(v ssa.Value) bool {
-			call, ok := c16Unconv(v).(*ssa.Call)
-			return ok && builtinName(call) == "len" && len(call.Call.Args) == 1 && isReadersLoad(call.Call.Args[0])
+		if heads[n] {
+			if ff.Any(n, func(s uint32) bool { return s&hReq == 0 }) {
+				res.reqBad = g.Pos(n)
+			}
+			if ff.Any(n, func(s uint32) bool { return s&dPending != 0 }) {
+				res.dropBad = g.Pos(n)
+			}
 		}
-		idx, op := cmp.X, cmp.Op
+		if use(n) {
+			if ff.Any(n, func(s uint32) bool { return s&hClosed != 0 }) {
+				res.onceBad = g.Pos(n)
+			}
+			if cntOf != nil && ff.Any(n, func(s uint32) bool { return s&hData != 0 }) {
+				res.dataBad = g.Pos(n)
+			}
+			if ff.Any(n, func(s uint32) bool { return s&dPending != 0 }) {
+				res.dropBad = g.Pos(n)
+			}
+		}
+	})
+	ff.AtExits(func(exit *c16B, ret c16N, st map[uint32]bool) {
+		if c16AnyState(st, func(s uint32) bool { return s&dPending != 0 }) {
+			res.dropBad = g.Pos(ret)
+		}
+		if c16AnyState(st, func(s uint32) bool { return s&hClosed != 0 }) {
+			res.onceBad = g.Pos(ret)
+		}
+	})
+	return res
+}
+
+// c16Loop is a counting loop `for idx over 0..len(readers)-1`.
+type c16Loop struct {
+	Header  *c16B
+	If      c16N
+	Idx     c16V // the value compared with len and used to index the element
+	Slice   c16V // the slice value whose length bounds the loop (a load of the readers field)
+	Exit    *c16B
+	Blocks  map[*c16B]bool
+	Why     string // non-empty: the loop does not cover 0..len-1
+	Reverse bool   // runs len-1 .. 0
+}
+
+func (m *c16MultiG) readerLoops() []*c16Loop {
+	g := m.c16G
+	var out []*c16Loop
+	for _, hb := range g.Blocks {
+		if len(hb.Ns) == 0 || len(hb.Succs) != 2 || !g.OnCycle(hb) {
+			continue
+		}
+		ifn := hb.Ns[len(hb.Ns)-1]
+		ifi, ok := ifn.In.(*ssa.If)
+		if !ok {
+			continue
+		}
+		cmp, ok := g.Cmp(c16C{V: g.Res(c16V{ifi.Cond, hb.Ctx}), Branch: true})
+		if !ok {
+			continue
+		}
+		var lenArg c16V
+		isLen := func(v c16V) bool {
+			v = g.Res(v)
+			call, ok := v.V.(*ssa.Call)
+			if ok && builtinName(call) == "len" && len(call.Call.Args) == 1 && m.isReadersLoad(c16V{call.Call.Args[0], v.Ctx}) {
+				lenArg = g.Val(c16V{call.Call.Args[0], v.Ctx})
+				return true
+			}
+			return false
+		}
+		idx, op := g.Res(cmp.X), cmp.Op
 		if !isLen(cmp.Y) {
 			if !isLen(cmp.X) {
-				return
+				if lp := m.reverseLoop(hb, ifn, cmp); lp != nil {
+					out = append(out, lp)
+				}
+				continue
 			}
-			idx, op = cmp.Y, c16Flip(cmp.Op)
+			idx, op = g.Res(cmp.Y), c16Flip(cmp.Op)
 		}
-		// idx must be loop-carried
 		var phi *ssa.Phi
 		first := int64(0)
-		switch x := idx.(type) {
+		switch x := idx.V.(type) {
 		case *ssa.Phi:
 			phi = x
 		case *ssa.BinOp:
@@ -632,30 +569,42 @@ func c16ReaderLoops(fn *ssa.Function, isReadersLoad func(ssa.Value) bool) []*c16
 			}
 		}
 		if phi == nil {
-			return // e.g. `for len(readers) > 0` compares a constant: not a counting loop
+			continue // e.g. `for len(readers) > 0`: not a counting loop
 		}
-		lp := &c16Loop{Header: ifi.Block(), If: ifi, Idx: idx, Blocks: map[*ssa.BasicBlock]bool{}}
+		lp := &c16Loop{Header: hb, If: ifn, Idx: idx, Slice: lenArg, Blocks: map[*c16B]bool{}}
 		switch op {
-		case token.LSS:
-			lp.Exit = ifi.Block().Succs[1]
-		case token.GEQ:
-			lp.Exit = ifi.Block().Succs[0]
-		case token.NEQ:
-			lp.Exit = ifi.Block().Succs[1]
-		case token.EQL:
-			lp.Exit = ifi.Block().Succs[0]
+		case token.LSS, token.NEQ:
+			lp.Exit = hb.Succs[1]
+		case token.GEQ, token.EQL:
+			lp.Exit = hb.Succs[0]
 		default:
-			lp.Exit = ifi.Block().Succs[1]
+			lp.Exit = hb.Succs[1]
 			lp.Why = "the loop over readers continues under `index " + op.String() + " len(readers)` instead of index < len: the last reader is skipped or the index overruns"
 		}
-		for _, b := range fn.Blocks {
-			if reachableFrom(lp.Header, map[*ssa.BasicBlock]bool{lp.Exit: true})[b] && reachableFrom(b, nil)[lp.Header] {
+		fromH := map[*c16B]bool{}
+		var walk func(b *c16B)
+		walk = func(b *c16B) {
+			if fromH[b] || b == lp.Exit {
+				return
+			}
+			fromH[b] = true
+			for _, s := range b.Succs {
+				walk(s)
+			}
+		}
+		walk(hb)
+		for b := range fromH {
+			if g.Reach(b)[hb] {
 				lp.Blocks[b] = true
 			}
 		}
 		startOK, stepOK := false, false
+		pb := g.first[c16bk{idx.Ctx, phi.Block()}]
 		for i, ed := range phi.Edges {
-			pred := phi.Block().Preds[i]
+			pred := g.last[c16bk{idx.Ctx, phi.Block().Preds[i]}]
+			if pred == nil || pb == nil {
+				continue
+			}
 			if k, ok := c16IntConst(ed); ok && !lp.Blocks[pred] {
 				if k+first == 0 {
 					startOK = true
@@ -665,12 +614,12 @@ func c16ReaderLoops(fn *ssa.Function, isReadersLoad func(ssa.Value) bool) []*c16
 				continue
 			}
 			if bo, ok := ed.(*ssa.BinOp); ok && bo.Op == token.ADD {
-				if k, ok := c16IntConst(bo.Y); ok && k == 1 && (bo.X == phi) {
+				if k, ok := c16IntConst(bo.Y); ok && k == 1 && bo.X == ssa.Value(phi) {
 					stepOK = true
 					continue
 				}
 			}
-			if ed == idx && first == 1 {
+			if ed == idx.V && first == 1 {
 				stepOK = true
 				continue
 			}
@@ -680,8 +629,363 @@ func c16ReaderLoops(fn *ssa.Function, isReadersLoad func(ssa.Value) bool) []*c16
 			lp.Why = "the loop over readers does not run index 0,1,2,…"
 		}
 		out = append(out, lp)
-	})
+	}
 	return out
+}
+
+// reverseLoop recognises `for i := len(readers)-1; i >= 0; i--`.
+func (m *c16MultiG) reverseLoop(hb *c16B, ifn c16N, cmp c16Cmp) *c16Loop {
+	g := m.c16G
+	idx, k, op := g.Res(cmp.X), cmp.Y, cmp.Op
+	if _, isPhi := idx.V.(*ssa.Phi); !isPhi {
+		idx, k, op = g.Res(cmp.Y), cmp.X, c16Flip(cmp.Op)
+	}
+	phi, isPhi := idx.V.(*ssa.Phi)
+	kv, isK := g.IntConst(k)
+	if !isPhi || !isK {
+		return nil
+	}
+	// continue while idx >= 0  (idx > -1)
+	var exit *c16B
+	switch {
+	case (op == token.GEQ && kv == 0) || (op == token.GTR && kv == -1):
+		exit = hb.Succs[1]
+	case (op == token.LSS && kv == 0) || (op == token.LEQ && kv == -1):
+		exit = hb.Succs[0]
+	default:
+		return nil
+	}
+	lp := &c16Loop{Header: hb, If: ifn, Idx: idx, Exit: exit, Blocks: map[*c16B]bool{}, Reverse: true}
+	fromH := map[*c16B]bool{}
+	var walk func(b *c16B)
+	walk = func(b *c16B) {
+		if fromH[b] || b == lp.Exit {
+			return
+		}
+		fromH[b] = true
+		for _, s := range b.Succs {
+			walk(s)
+		}
+	}
+	walk(hb)
+	for b := range fromH {
+		if g.Reach(b)[hb] {
+			lp.Blocks[b] = true
+		}
+	}
+	startOK, stepOK := false, false
+	for i, ed := range phi.Edges {
+		pred := g.last[c16bk{idx.Ctx, phi.Block().Preds[i]}]
+		if pred == nil {
+			continue
+		}
+		ev := c16V{ed, idx.Ctx}
+		if !lp.Blocks[pred] {
+			b, off, ok := g.Lin(ev, func(v c16V) string {
+				if call, isCall := v.V.(*ssa.Call); isCall && builtinName(call) == "len" && len(call.Call.Args) == 1 && m.isReadersLoad(c16V{call.Call.Args[0], v.Ctx}) {
+					lp.Slice = g.Val(c16V{call.Call.Args[0], v.Ctx})
+					return "len"
+				}
+				return ""
+			})
+			if ok && b == "len" && off == -1 {
+				startOK = true
+				continue
+			}
+			if ok && b == "len" {
+				startOK = true
+				lp.Why = "the backwards loop over readers does not start at the last index len(readers)-1: readers are skipped (never closed)"
+				continue
+			}
+			return nil // not a loop over the readers
+		}
+		if b, off, ok := g.Lin(ev, func(v c16V) string {
+			if v == idx {
+				return "i"
+			}
+			return ""
+		}); ok && b == "i" && off == -1 {
+			stepOK = true
+			continue
+		}
+		lp.Why = "the index of the backwards loop over readers is not decreased by exactly 1: readers are skipped"
+	}
+	if !startOK {
+		return nil
+	}
+	if lp.Why == "" && !stepOK {
+		lp.Why = "the backwards loop over readers does not run len-1, len-2, …, 0"
+	}
+	return lp
+}
+
+// c16MultiLoop: the rules for an entry point that walks the whole list
+// (WriteTo: copy each and close it; Close: close each). Two loop forms are
+// understood: a counting loop over the indices, and consuming the list from
+// its head. Returns true if an obligation was recorded.
+func c16MultiLoop(c *Ctx, m *c16MultiG, fname string, needCopy, isClose bool) bool {
+	r, p := c.R, c.P
+	g := m.c16G
+	construct := fname + " loop over readers"
+	if isClose {
+		construct = fname + " closes remaining readers"
+	}
+	rem, unk := m.removals()
+	for _, u := range unk {
+		g.Unk(r, "unrecognised update of the readers list in %s at %s", fname, p.Pos(g.Pos(u)))
+	}
+	loops := m.readerLoops()
+	heads := map[c16N]bool{}
+	for _, rm := range rem {
+		if rm.Kind == "head" {
+			heads[rm.N] = true
+		}
+	}
+	isCopyOf := func(n c16N, want func(c16V) bool) bool {
+		if !(g.StaticCall(n, "io", "CopyBuffer") || g.StaticCall(n, "io", "Copy")) {
+			return false
+		}
+		args := n.In.(ssa.CallInstruction).Common().Args
+		return len(args) >= 2 && want(c16V{args[1], n.Ctx})
+	}
+	lenBase := func(v c16V) string {
+		if call, ok := v.V.(*ssa.Call); ok && builtinName(call) == "len" && len(call.Call.Args) == 1 && m.isReadersLoad(c16V{call.Call.Args[0], v.Ctx}) {
+			return "lenR"
+		}
+		return ""
+	}
+	anyCycle := false
+	for _, b := range g.Blocks {
+		if g.OnCycle(b) {
+			anyCycle = true
+		}
+	}
+
+	switch {
+	case len(loops) == 0 && len(heads) > 0:
+		// head-consuming form
+		var useFn func(n c16N) bool
+		if needCopy {
+			useFn = func(n c16N) bool { return isCopyOf(n, m.isHead) }
+		} else {
+			useFn = func(n c16N) bool { return false }
+		}
+		hf := c16HeadFlow(m, heads, useFn, nil, nil)
+		why, pos := "", g.Root.Pos()
+		switch {
+		case hf.dropBad.IsValid():
+			why, pos = "a reader is dropped from the head of the list and the function returns / goes on with it not closed although it may be an io.Closer: that source is never closed", hf.dropBad
+		case needCopy && hf.reqBad.IsValid():
+			why, pos = "a reader is dropped from the head of the list without having been copied to w: its bytes are missing from the concatenation", hf.reqBad
+		case hf.onceBad.IsValid():
+			why, pos = "a reader is closed and kept at the head of the list: it is used after Close / closed a second time later", hf.onceBad
+		}
+		// completeness: a successful return needs the list to be empty
+		for _, rm := range rem {
+			if rm.Kind != "head" {
+				empty := false
+				for _, set := range g.CondSets(g.where[rm.N], 3) {
+					_ = set
+				}
+				for _, rel := range g.Rels(g.DomConds(g.where[rm.N]), lenBase) {
+					if rel.X == "lenR" && rel.Y == "" && rel.impliesLE(0) {
+						empty = true
+					}
+				}
+				if !empty && why == "" {
+					why, pos = "readers are dropped ("+rm.Kind+") on a path where the list is not known to be empty: the remaining closable sources are never closed", g.Pos(rm.N)
+				}
+			}
+		}
+		if isClose && why == "" {
+			for _, eb := range g.Exits {
+				okExit := false
+				for _, set := range g.CondSets(eb, 3) {
+					ok := false
+					for _, rel := range g.Rels(set, lenBase) {
+						if rel.X == "lenR" && rel.Y == "" && rel.impliesLE(0) {
+							ok = true
+						}
+					}
+					okExit = ok
+					if !ok {
+						break
+					}
+				}
+				if !okExit {
+					why, pos = "Close can return on a path where len(readers) == 0 is not established: the remaining sources stay open", g.Pos(eb.Ns[len(eb.Ns)-1])
+				}
+			}
+		}
+		c16Check(r, g, why == "", "C16.V3-loop", construct, p.Pos(pos), "the list is consumed from its head; every reader dropped was "+map[bool]string{true: "copied and ", false: ""}[needCopy]+"closed-if-Closer", why)
+		return true
+
+	case len(loops) == 0:
+		if anyCycle {
+			g.Unk(r, "%s loops in a form the rule does not recognise (neither index 0..len-1 nor head-consuming)", fname)
+			return false
+		}
+		bad := false
+		for _, rm := range rem {
+			bad = true
+			c16Viol(r, g, "C16.V3-drop", fname+" drops readers after closing them", p.Pos(g.Pos(rm.N)), "readers are dropped ("+rm.Kind+") in a function that does not loop over them closing each io.Closer: closable sources are never closed")
+		}
+		esc := g.Escapes(m.fReaders, true)
+		if esc == "" {
+			esc = g.Escapes(m.fReaders, false)
+		}
+		if isClose {
+			c16Absent(r, g, esc, "C16.V3-loop", construct, p.Pos(g.Root.Pos()), "Close no longer loops over the remaining readers closing each io.Closer")
+			return true
+		}
+		if !bad && needCopy {
+			c16Absent(r, g, esc, "C16.V3-loop", construct, p.Pos(g.Root.Pos()), "WriteTo no longer loops over the readers copying each one")
+			return true
+		}
+		return bad
+
+	case len(loops) > 1 || len(heads) > 0:
+		r.Undecide("%s has %d counting loops over readers and %d head drops; rule written for one form", fname, len(loops), len(heads))
+		return false
+	}
+
+	lp := loops[0]
+	isElem := func(v c16V) bool {
+		idx, ok := m.elemIndex(v)
+		return ok && idx == lp.Idx
+	}
+	const (
+		sHandled = 1 << iota
+		sDropped
+		sCopied
+		sClosed
+	)
+	hdr := lp.Header.Ns[0]
+	ff := &c16Flow{G: g, Entry: 0,
+		Transfer: func(n c16N, s uint32) uint32 {
+			if n == hdr {
+				s = 0
+			}
+			if m.closeOf(n, isElem) {
+				return s | sHandled | sClosed
+			}
+			if isCopyOf(n, isElem) {
+				return s | sCopied
+			}
+			if st, ok := n.In.(*ssa.Store); ok {
+				if ia, ok := st.Addr.(*ssa.IndexAddr); ok && m.isReadersLoad(c16V{ia.X, n.Ctx}) && g.Res(c16V{ia.Index, n.Ctx}) == lp.Idx && g.IsNil(c16V{st.Val, n.Ctx}) {
+					return s | sDropped
+				}
+			}
+			return s
+		},
+		Edge: func(conds []c16C, s uint32) (uint32, bool) {
+			for _, c := range conds {
+				if x, truth, ok := g.AssertOk(c); ok && !truth && isElem(x) {
+					s |= sHandled
+				}
+			}
+			return s, true
+		}}
+	ff.Run()
+	why := lp.Why
+	pos := g.Pos(lp.If)
+	var early []*c16B
+	for _, b := range g.Blocks {
+		if !lp.Blocks[b] {
+			continue
+		}
+		for _, s := range b.Succs {
+			es := ff.OutEdge(b, s)
+			last := b.Ns[len(b.Ns)-1]
+			switch {
+			case s == lp.Header:
+				if c16AnyState(es, func(x uint32) bool { return x&sHandled == 0 }) {
+					why = "an iteration can move on to the next reader with the current one neither closed (if it is an io.Closer) nor kept for Close(): once the list is dropped / the element nil-ed that source is never closed (e.g. io.Copy(dst, mr) followed by mr.Close() closes nothing)"
+					pos = g.Pos(last)
+				} else if needCopy && c16AnyState(es, func(x uint32) bool { return x&sCopied == 0 }) {
+					why = "an iteration of the WriteTo loop can finish without copying the current reader to w: its bytes are missing from the concatenation"
+					pos = g.Pos(last)
+				}
+			case !lp.Blocks[s] && s != lp.Exit:
+				early = append(early, s)
+				if c16AnyState(es, func(x uint32) bool { return x&sDropped != 0 && x&sHandled == 0 }) {
+					why = "the loop is left early after nil-ing the current reader without closing it"
+					pos = g.Pos(last)
+				}
+			case !lp.Blocks[s] && s == lp.Exit && b != lp.Header:
+				early = append(early, s)
+			}
+		}
+	}
+	dominatedByAny := func(b *c16B, ds []*c16B) bool {
+		for _, d := range ds {
+			if g.Dominates(d, b) {
+				return true
+			}
+		}
+		return false
+	}
+	for _, rm := range rem {
+		rb := g.where[rm.N]
+		switch rm.Kind {
+		case "prefix":
+			if lp.Reverse {
+				g.Unk(r, "%s re-slices the list inside a backwards loop at %s", fname, p.Pos(g.Pos(rm.N)))
+				continue
+			}
+			b, off, ok := g.Lin(rm.Index, func(v c16V) string {
+				if v == lp.Idx {
+					return "i"
+				}
+				return ""
+			})
+			handled := !ff.Any(rm.N, func(x uint32) bool { return x&sHandled == 0 })
+			if !lp.Blocks[rb] && !dominatedByAny(rb, early) {
+				why = "readers is re-sliced from a variable index outside the loop over it"
+				pos = g.Pos(rm.N)
+			} else if ok && b == "i" && off == 0 && ff.Any(rm.N, func(x uint32) bool { return x&sClosed != 0 && x&sDropped == 0 }) {
+				why = "the current reader was closed and is then kept at the head of readers (re-slice from its own index): a retry reads a closed source and Close() closes it a second time"
+				pos = g.Pos(rm.N)
+			} else if !(ok && b == "i" && (off == 0 || (off == 1 && handled))) {
+				why = "readers is re-sliced to start after the current reader although that one was not closed (it is dropped unclosed), or from an unrelated index"
+				pos = g.Pos(rm.N)
+			}
+		case "all":
+			okDom := len(lp.Exit.Preds) == 1 && lp.Exit.Preds[0] == lp.Header && g.Dominates(lp.Exit, rb)
+			for _, eb := range early {
+				if g.Reach(eb)[rb] {
+					okDom = false
+				}
+			}
+			// "detach, then walk the detached list": the list is emptied before the
+			// loop, which runs over a load taken before that store, cannot be left
+			// early, and every return comes after its normal exit
+			if !okDom && len(early) == 0 && g.Dominates(rb, lp.Header) && lp.Slice.V != nil {
+				if ld, isInstr := lp.Slice.V.(ssa.Instruction); isInstr && g.NDominates(c16N{In: ld, Ctx: lp.Slice.Ctx}, rm.N) {
+					okDom = true
+					for _, eb := range g.Exits {
+						if g.Reach(rb)[eb] && !g.Dominates(lp.Exit, eb) {
+							okDom = false
+						}
+					}
+				}
+			}
+			if !okDom {
+				why = "all readers are dropped on a path that did not run the closing loop to its end: the remaining closable sources are never closed"
+				pos = g.Pos(rm.N)
+			}
+		}
+	}
+	if isClose {
+		if len(early) > 0 && why == "" {
+			why = "Close can leave its loop before the last reader: the remaining sources stay open"
+		}
+		c16Check(r, g, why == "", "C16.V3-loop", construct, p.Pos(pos), "Close visits readers 0..len-1 and closes every io.Closer", why)
+	} else {
+		c16Check(r, g, why == "", "C16.V3-loop", construct, p.Pos(pos), "each iteration copies the reader and leaves it closed-if-Closer or still listed", why)
+	}
+	return true
 }
 
 // ---------------------------------------------------------------- tee
@@ -689,190 +993,259 @@ func c16ReaderLoops(fn *ssa.Function, isReadersLoad func(ssa.Value) bool) []*c16
 func c16Tee(c *Ctx) {
 	r, p := c.R, c.P
 	named := p.Named("streams", "TeeReadCloser")
-	fr, fw := c16Field(named, "r"), c16Field(named, "w")
-	read := p.Func("streams", "TeeReadCloser.Read")
-	closeFn := p.Func("streams", "TeeReadCloser.Close")
-	rname := FuncName(p, read)
+	fr := c16FieldByType(named, "source reader", "r", func(t types.Type) bool {
+		return c16IsIface(t) && c16HasMethod(t, "Read") && !c16HasMethod(t, "Write")
+	})
+	fw := c16FieldByType(named, "tee writer", "w", func(t types.Type) bool {
+		return c16IsIface(t) && c16HasMethod(t, "Write") && !c16HasMethod(t, "Read")
+	})
+	read := c16Method(p, named, "Read")
+	closeFn := c16Method(p, named, "Close")
+	if read == nil || closeFn == nil {
+		undecided("TeeReadCloser has no Read/Close method body")
+	}
+	const rname = "streams.TeeReadCloser.Read"
+	g := c16Build(p, read)
+	g.Esc = g.Escapes(fr, false)
+	if g.Esc == "" {
+		g.Esc = g.Escapes(fw, false)
+	}
 
-	srcs := c16CallsOnField(read, "Read", fr)
+	var srcs, writes []c16N
+	g.All(func(n c16N, b *c16B) {
+		if _, isCall := n.In.(*ssa.Call); !isCall {
+			return
+		}
+		if g.MethodCall(n, "Read", func(v c16V) bool { return g.IsFieldLoad(v, fr) }) {
+			srcs = append(srcs, n)
+		}
+		if g.MethodCall(n, "Write", func(v c16V) bool { return g.IsFieldLoad(v, fw) }) {
+			writes = append(writes, n)
+		}
+	})
 	if len(srcs) != 1 {
 		if len(srcs) == 0 {
-			r.Violation("C16.V5-tee", rname+" Write(p[:n])", p.Pos(read.Pos()), "TeeReadCloser.Read no longer reads from t.r")
+			c16Absent(r, g, g.Escapes(fr, false), "C16.V5-tee", rname+" Write(p[:n])", p.Pos(read.Pos()), "Read no longer reads from the source reader")
 		} else {
 			r.Undecide("TeeReadCloser.Read reads the source at %d sites", len(srcs))
 		}
 		return
 	}
 	src := srcs[0]
-	cnt, _ := callResult(src, 0), callResult(src, 1)
-	if cnt == nil || len(read.Params) < 2 {
-		r.Violation("C16.V5-tee", rname+" Write(p[:n])", p.Pos(src.Pos()), "the byte count of t.r.Read is discarded")
+	srcB := g.where[src]
+	cnt := g.Res(g.Result(src, 0))
+	if cnt.V == nil || len(read.Params) < 2 {
+		c16Viol(r, g, "C16.V5-tee", rname+" Write(p[:n])", p.Pos(g.Pos(src)), "the byte count of the source's Read is discarded")
 		return
 	}
-	buf := read.Params[1]
-	isCnt := func(v ssa.Value) bool {
-		ls := c16Leaves(v)
+	buf := c16V{read.Params[1], nil}
+	isCnt := func(v c16V) bool {
+		ls := g.Leaves(v)
 		if len(ls) == 0 {
 			return false
 		}
 		for _, l := range ls {
-			if c16Unconv(l.Val) != cnt {
+			if l.Val != cnt {
 				return false
 			}
 		}
 		return true
 	}
-	cntBase := func(v ssa.Value) string {
+	cntBase := func(v c16V) string {
 		if isCnt(v) {
 			return "cnt"
 		}
 		return ""
 	}
-	writes := c16CallsOnField(read, "Write", fw)
-	goodWrite := map[ssa.Instruction]bool{}
-	argWhy := ""
-	if a := c16CallArgs(src); len(a) != 1 || a[0] != buf {
-		argWhy = "the source does not read into the caller's buffer p"
-	}
-	for _, w := range writes {
-		a := c16CallArgs(w)
-		ok := false
-		if len(a) == 1 {
-			if sl, isSl := a[0].(*ssa.Slice); isSl && sl.X == buf && sl.Max == nil && sl.High != nil && isCnt(sl.High) {
-				lowOK := sl.Low == nil
-				if sl.Low != nil {
-					if k, isK := c16IntConst(sl.Low); isK && k == 0 {
-						lowOK = true
-					}
-				}
-				ok = lowOK
+	isBuf := func(v c16V) bool {
+		ls := g.Leaves(v)
+		if len(ls) == 0 {
+			return false
+		}
+		for _, l := range ls {
+			if l.Val != buf {
+				return false
 			}
 		}
-		if ok && instrDominates(src, w) {
+		return true
+	}
+	goodWrite := map[c16N]bool{}
+	argWhy, argUnknown := "", ""
+	if a := g.CallArgs(src); len(a) != 1 || !isBuf(a[0]) {
+		argUnknown = "the source does not read into the caller's buffer p itself"
+	}
+	// rangeOf: v denotes p[0:hi]; hi is "cnt", "len" (whole buffer) or "?" (unknown); ok=false if v is not a prefix of p
+	var rangeOf func(v c16V, depth int) (string, bool)
+	rangeOf = func(v c16V, depth int) (string, bool) {
+		v = g.Val(v)
+		if v == buf {
+			return "len", true
+		}
+		sl, isSl := v.V.(*ssa.Slice)
+		if !isSl || depth > 4 {
+			return "", false
+		}
+		if sl.Low != nil {
+			if k, isK := g.IntConst(c16V{sl.Low, v.Ctx}); !isK || k != 0 {
+				return "", false
+			}
+		}
+		inner, ok := rangeOf(c16V{sl.X, v.Ctx}, depth+1)
+		if !ok {
+			return "", false
+		}
+		if sl.High == nil {
+			return inner, true
+		}
+		hv := g.Val(c16V{sl.High, v.Ctx})
+		if isCnt(hv) {
+			return "cnt", true
+		}
+		if call, isCall := hv.V.(*ssa.Call); isCall && builtinName(call) == "len" && len(call.Call.Args) == 1 {
+			if h2, ok2 := rangeOf(c16V{call.Call.Args[0], hv.Ctx}, depth+1); ok2 {
+				return h2, true
+			}
+		}
+		if _, isK := hv.V.(*ssa.Const); isK {
+			return "const", true
+		}
+		return "?", true
+	}
+	for _, w := range writes {
+		a := g.CallArgs(w)
+		hi, ok := "", false
+		if len(a) == 1 {
+			hi, ok = rangeOf(a[0], 0)
+		}
+		switch {
+		case ok && hi == "cnt" && g.NDominates(src, w):
 			goodWrite[w] = true
-		} else {
-			argWhy = "t.w.Write is called with something other than p[:n] of this read: the writer does not receive exactly the bytes the consumer gets"
+		case ok && (hi == "len" || hi == "const"):
+			argWhy = "the writer's Write is called with something other than p[:n] of this read (the whole buffer / a fixed length): the writer does not receive exactly the bytes the consumer gets"
+		default:
+			argUnknown = "the writer's Write is called with a buffer the rule cannot relate to p[:n] at " + p.Pos(g.Pos(w))
 		}
 	}
 	if len(writes) == 0 {
-		argWhy = "TeeReadCloser.Read no longer writes to t.w"
+		if esc := g.Escapes(fw, false); esc != "" {
+			argUnknown = "the tee writer is handed to " + esc + " instead of being written to directly"
+		} else {
+			argWhy = "Read no longer writes to the tee writer"
+		}
 	}
-	r.Check(argWhy == "", "C16.V5-tee", rname+" Write(p[:n])", p.Pos(src.Pos()), "every t.w.Write in Read receives p[:n] with n the count of this read", argWhy)
+	if argWhy == "" && argUnknown != "" {
+		g.Unk(r, "C16.V5-tee: %s", argUnknown)
+	}
+	c16Check(r, g, argWhy == "", "C16.V5-tee", rname+" Write(p[:n])", p.Pos(g.Pos(src)), "every Write to the tee writer in Read receives p[:n] with n the count of this read", argWhy)
 
 	// every path from the read to a return writes, or has n <= 0
-	ff := &FlagFlow{Fn: read, Must: true, Entry: 1,
-		Transfer: func(in ssa.Instruction, st uint64) uint64 {
-			if in == ssa.Instruction(src) {
+	ff := &c16Flow{G: g, Entry: 1,
+		Transfer: func(n c16N, s uint32) uint32 {
+			if n == src {
 				return 0
 			}
-			if goodWrite[in] {
+			if goodWrite[n] {
 				return 1
 			}
-			return st
+			return s
 		},
-		EdgeTransfer: func(from, to *ssa.BasicBlock, st uint64) uint64 {
-			if dc, ok := c16EdgeCond(from, to); ok {
-				for _, rel := range c16Rels([]DomCond{dc}, cntBase) {
-					if rel.X == "cnt" && rel.Y == "" && rel.impliesLE(0) {
-						return 1
-					}
+		Edge: func(conds []c16C, s uint32) (uint32, bool) {
+			for _, rel := range g.Rels(conds, cntBase) {
+				if rel.X == "cnt" && rel.Y == "" && rel.impliesLE(0) {
+					return 1, true
 				}
 			}
-			return st
+			return s, true
 		}}
 	ff.Run()
 	bad := token.NoPos
-	ff.AtReturns(func(ret *ssa.Return, st uint64) {
-		if st&1 == 0 {
-			bad = ret.Pos()
+	ff.AtExits(func(exit *c16B, ret c16N, st map[uint32]bool) {
+		if c16AnyState(st, func(s uint32) bool { return s&1 == 0 }) {
+			bad = g.Pos(ret)
 		}
 	})
-	r.Check(!bad.IsValid(), "C16.V5-tee", rname+" writes before returning", p.Pos(c16PosOr(bad, read.Pos())),
-		"every return after the source read is preceded by Write(p[:n]) or by the fact n <= 0", "Read can return bytes to the consumer (n > 0, e.g. data delivered together with an error/EOF) without having written them to t.w: the writer misses bytes the consumer received")
+	c16Check(r, g, !bad.IsValid(), "C16.V5-tee", rname+" writes before returning", p.Pos(c16PosOr(bad, read.Pos())),
+		"every return after the source read is preceded by Write(p[:n]) or by the fact n <= 0", "Read can return bytes to the consumer (n > 0, e.g. data delivered together with an error/EOF) without having written them to the tee writer: the writer misses bytes the consumer received")
 
 	// returned count
 	why, wpos := "", token.NoPos
-	post := reachableFrom(src.Block(), nil)
-	for _, rl := range c16ReturnLeaves(read, 0) {
-		if !post[rl.Ret.Block()] || !src.Block().Dominates(rl.Ret.Block()) {
+	post := g.Reach(srcB)
+	for _, rl := range g.ExitLeaves(0) {
+		if !post[rl.Exit] || !g.Dominates(srcB, rl.Exit) {
 			continue
 		}
 		for _, lf := range rl.Leaves {
-			v := c16Unconv(lf.Val)
-			if v == cnt {
+			if g.IsCount(lf, cnt) {
 				continue
 			}
 			okW := false
 			for _, w := range writes {
-				if wn := callResult(w, 0); wn != nil && v == wn {
-					if we := callResult(w, 1); we != nil && c16FactsAbout(lf.Conds, []ssa.Value{we}).NonNil {
+				if wn := g.Result(w, 0); wn.V != nil && g.Res(wn) == lf.Val {
+					if we := g.Result(w, 1); we.V != nil && g.FactsAbout(lf.Conds, []c16V{we}).NonNil {
 						okW = true
 					}
 				}
 			}
+			// a zero count reported where the source's count is known <= 0 ... is still the source's count only if == 0
 			if !okW {
 				why = "Read reports a count that is neither the source's count nor the writer's count on a write error: the consumer gets fewer/more bytes than were read and teed"
 				wpos = rl.Ret.Pos()
 			}
 		}
 	}
-	r.Check(why == "", "C16.V5-tee", rname+" returned count", p.Pos(c16PosOr(wpos, read.Pos())), "after the read, Read returns the source's count (or the writer's on a write error)", why)
+	c16Check(r, g, why == "", "C16.V5-tee", rname+" returned count", p.Pos(c16PosOr(wpos, read.Pos())), "after the read, Read returns the source's count (or the writer's on a write error)", why)
 
 	// Close closes r if Closer
 	{
-		cname := FuncName(p, closeFn)
-		isR := func(v ssa.Value) bool { return c16IsFieldLoad(v, fr) }
-		ff := &FlagFlow{Fn: closeFn, Must: true,
-			Transfer: func(in ssa.Instruction, st uint64) uint64 {
-				if call, ok := in.(ssa.CallInstruction); ok {
-					if _, ok := c16InvokeOn(call, "Close", func(v ssa.Value) bool {
-						if isR(v) {
-							return true
-						}
-						ta := c16CloserAssert(v)
-						return ta != nil && isR(ta.X)
-					}); ok {
-						if _, isDefer := in.(*ssa.Defer); !isDefer || true {
-							return st | 1
-						}
+		const cname = "streams.TeeReadCloser.Close"
+		gc := c16Build(p, closeFn)
+		gc.Esc = gc.Escapes(fr, false)
+		isR := func(v c16V) bool { return gc.IsFieldLoad(v, fr) }
+		fc := &c16Flow{G: gc, Entry: 0,
+			Transfer: func(n c16N, s uint32) uint32 {
+				if gc.MethodCall(n, "Close", func(v c16V) bool {
+					if isR(v) {
+						return true
 					}
+					x, ok := gc.CloserAssert(v)
+					return ok && isR(x)
+				}) {
+					return s | 1
 				}
-				return st
+				return s
 			},
-			EdgeTransfer: func(from, to *ssa.BasicBlock, st uint64) uint64 {
-				if ta, truth, ok := c16AssertOkEdge(from, to); ok && !truth && isR(ta.X) && c16HasClose(ta.AssertedType) {
-					return st | 1
-				}
-				if dc, ok := c16EdgeCond(from, to); ok {
-					if cmp, ok := decodeCond(dc.If.Cond, dc.Branch); ok && cmp.Op == token.EQL {
-						if (isR(cmp.X) && isNilConst(cmp.Y)) || (isR(cmp.Y) && isNilConst(cmp.X)) {
-							return st | 1
+			Edge: func(conds []c16C, s uint32) (uint32, bool) {
+				for _, c := range conds {
+					if x, truth, ok := gc.AssertOk(c); ok && !truth && isR(x) {
+						return s | 1, true
+					}
+					if cmp, ok := gc.Cmp(c); ok && cmp.Op == token.EQL {
+						if (isR(cmp.X) && gc.IsNil(cmp.Y)) || (isR(cmp.Y) && gc.IsNil(cmp.X)) {
+							return s | 1, true
 						}
 					}
 				}
-				return st
+				return s, true
 			}}
-		ff.Run()
+		fc.Run()
 		bad := token.NoPos
 		n := 0
-		ff.AtReturns(func(ret *ssa.Return, st uint64) {
+		fc.AtExits(func(exit *c16B, ret c16N, st map[uint32]bool) {
 			n++
-			if st&1 == 0 {
-				bad = ret.Pos()
+			if c16AnyState(st, func(s uint32) bool { return s&1 == 0 }) {
+				bad = gc.Pos(ret)
 			}
 		})
-		r.Check(!bad.IsValid() && n > 0, "C16.V4-tee-close", cname+" closes the source", p.Pos(c16PosOr(bad, closeFn.Pos())),
-			"every return of Close has closed t.r if it is an io.Closer", "TeeReadCloser.Close can return without closing t.r although it is an io.Closer")
-		// NOTE only: nil what was closed
+		c16Check(r, gc, !bad.IsValid() && n > 0, "C16.V4-tee-close", cname+" closes the source", p.Pos(c16PosOr(bad, closeFn.Pos())),
+			"every return of Close has closed the source reader if it is an io.Closer", "TeeReadCloser.Close can return without closing the source reader although it is an io.Closer")
 		cleared := false
-		allInstrs(closeFn, func(in ssa.Instruction) {
-			if st := c16FieldStore(in, fr); st != nil && isNilConst(st.Val) {
+		gc.All(func(n c16N, b *c16B) {
+			if st := c16FieldStore(n.In, fr); st != nil && gc.IsNil(c16V{st.Val, n.Ctx}) {
 				cleared = true
 			}
 		})
 		if !cleared {
-			r.Note("TeeReadCloser.Close no longer sets t.r = nil after closing it: a second Close() would close the source again (good practice; C16 only quantifies over one Close)")
+			r.Note("TeeReadCloser.Close no longer sets the source reader field to nil after closing it: a second Close() would close the source again (good practice; C16 only quantifies over one Close)")
 		}
 	}
-	_ = strings.TrimSpace
 }
